@@ -7,7 +7,7 @@ import time
 from facts import VERIF, REPO, AnalysisBroken
 
 KNOWN = os.path.join(VERIF, 'known_findings.json')
-EVID = os.path.join(VERIF, 'evidence')
+EVID = os.environ.get('VERIF_EVIDENCE_DIR') or os.path.join(VERIF, 'evidence')
 
 
 class Ob:
